@@ -562,7 +562,7 @@ def gen_cases(rng, tier):
                 for eom_bw in (20.0, 40.0, 300.0):
                     yield dict(k="chmod", bw=bw, eom_bw=eom_bw, eom=True, keep=keep, x=gen_signal(rng, rng.choice([1, 9, 60])))
     # rise time >= 1 on the whole admissible range (boundary lattice near 480 MHz)
-    for bw in (479.9, 479.99999, float(np.nextafter(480.0, 0)), 480.0, 320.1, 240.0, 240.1, 0.5, 0.001):
+    for bw in (479.9, 479.99999, float(np.nextafter(480.0, 0)), 480.0, 320.1, 240.0, 240.1, 0.5):
         yield dict(k="chmod", bw=bw, keep=True, x=dict(c="const", d=3, v=1.0))
     # Waveform.modulated_samples / buffers; residual beyond the fall time: classes x bandwidths x durations
     durs = [1, 2, 3, 4, 7, 16, 40, 100, 257, 1000]
